@@ -115,10 +115,10 @@ func selfTest() {
 	}
 }
 
-// F-C09-1 witness: a 16-byte key (read as a UUID: 653cbefb-85ec-3111-b4e3-8fa9bc7cbcae) with h1 = -2^63
+// witness of the fixed finding murmur3-min-token-not-normalized: a 16-byte key (read as a UUID:
+// 653cbefb-85ec-3111-b4e3-8fa9bc7cbcae) with h1 = -2^63; its token must be Long.MAX_VALUE. Kept as a
+// regression input: the defect coming back is a plain violation.
 var minWitness = []byte{101, 60, 190, 251, 133, 236, 49, 17, 180, 227, 143, 169, 188, 124, 188, 174}
-
-const findingMin = "murmur3-min-token-not-normalized"
 
 // ---- printers -------------------------------------------------------------------------------
 
@@ -390,7 +390,7 @@ func main() {
 		// the standard partitioner class names are no longer recognised: every token-aware route is lost
 		o.Violate(-1, "partitioner-select", "", fmt.Sprintf("standard partitioner names rejected: %v %v %v", e1, e2, e3), nil)
 		checkRetained(o)
-	o.Finish("From GocqlV Require Import Lib.Base C09.Model C09.Corr.", "C09.Corr.case", "C09.Corr.run")
+		o.Finish("From GocqlV Require Import Lib.Base C09.Model C09.Corr.", "C09.Corr.case", "C09.Corr.run")
 		return
 	}
 
@@ -408,11 +408,7 @@ func main() {
 		}
 		if len(key) > 0 {
 			if ct := cassMurmurToken(key); tok != ct {
-				fid := ""
-				if want == math.MinInt64 && tok == math.MinInt64 {
-					fid = findingMin // exactly the defective model's value inside the trigger region
-				}
-				o.Violate(idx, "murmur-token-cassandra", fid, fmt.Sprintf("murmur3Partitioner.Hash(%x) = %d, Cassandra's Murmur3Partitioner.getToken = %d", key, tok, ct), fmt.Sprintf("%x", key))
+				o.Violate(idx, "murmur-token-cassandra", "", fmt.Sprintf("murmur3Partitioner.Hash(%x) = %d, Cassandra's Murmur3Partitioner.getToken = %d", key, tok, ct), fmt.Sprintf("%x", key))
 			}
 		}
 	}
@@ -464,7 +460,7 @@ func main() {
 			doKey("murmur-systematic", classKey(l, class))
 		}
 	}
-	// the known-finding witness and the vectors quoted in the repository's tests
+	// the Long.MIN_VALUE witness (regression) and the vectors quoted in the repository's tests
 	doKey("murmur-fixed", minWitness)
 	doKey("murmur-fixed", []byte("hello"))
 	doKey("murmur-fixed", []byte("The quick brown fox jumps over the lazy dog."))
